@@ -32,6 +32,7 @@ func audStamp(tsIdx, seq int) string {
 }
 
 type audFields struct {
+	OldSes  string // LOGIN: old-ses value; "" = 4294967295
 	Ses     string // "" = omit
 	PID     string
 	Result  string // raw spelling for res=/success=
@@ -61,7 +62,11 @@ func buildAudEvent(typ string, tsIdx, seq int, f audFields) audEvent {
 	e.Success = lower == "yes" || lower == "1" || strings.HasPrefix(lower, "suc")
 	switch typ {
 	case "LOGIN":
-		l := fmt.Sprintf("type=LOGIN msg=%s: pid=%s uid=0 old-auid=4294967295 auid=%s tty=(none) old-ses=4294967295%s res=%s", st, f.PID, f.UID, ses, f.Result)
+		oldSes := f.OldSes
+		if oldSes == "" {
+			oldSes = "4294967295"
+		}
+		l := fmt.Sprintf("type=LOGIN msg=%s: pid=%s uid=0 old-auid=4294967295 auid=%s tty=(none) old-ses=%s%s res=%s", st, f.PID, f.UID, oldSes, ses, f.Result)
 		if f.Tail {
 			l += ` UID="root" OLD-AUID="unset" AUID="someuser"`
 		}
@@ -219,7 +224,13 @@ func audEventForOp(opIndex int, o hop) audEvent {
 	ts := scramble(opIndex) // kernel timestamp index: unique, not monotonic in processing order
 	switch o.K {
 	case "open":
-		return buildAudEvent("LOGIN", ts, seq, defaultAudFields("LOGIN", sesString(o.S), strconv.Itoa(pidValue(o.P)), i))
+		f := defaultAudFields("LOGIN", sesString(o.S), strconv.Itoa(pidValue(o.P)), i)
+		if o.Old != 0 {
+			// the process was in another audit session before (sshd restarted from
+			// inside an ssh session, pam_loginuid run twice, su -l ...)
+			f.OldSes = sesString(o.Old)
+		}
+		return buildAudEvent("LOGIN", ts, seq, f)
 	case "disp":
 		return buildAudEvent("CRED_DISP", ts, seq, defaultAudFields("CRED_DISP", sesString(o.S), opPidString(o), i))
 	case "ev":
